@@ -5,6 +5,7 @@ use serde_json::Value;
 
 pub mod c01;
 pub mod c02;
+pub mod c02bp;
 pub mod c02h3;
 pub mod c02socks;
 pub mod c03;
